@@ -62,25 +62,31 @@ Definition hspec (c slack : nat) (pre : chan -> Prop) (f : cx -> cx) : Prop :=
     (pc_queued (pc (x_ch x')) = true -> pc (x_ch x') = pc ch \/ In (KCreate c) (x_k x')).
 
 Ltac dm :=
-  repeat (cbn in *;
+  repeat (cbn;
           match goal with
           | |- context [match ?d with _ => _ end] => destruct d eqn:?
           end).
 
+(* one field of the invariant of the new channel: unchanged fields are hypotheses already *)
+Ltac fld :=
+  cbn;
+  first [ assumption
+        | solve [ intros; congruence ]
+        | solve [ intros; exfalso; congruence ]
+        | solve [ intuition (try congruence; try lia) ] ].
+
 Ltac fin_cinv :=
-  match goal with
-  | |- cinv _ -> _ => intros [H1 H2 H3 H4 H5 H6 H7 H8 H9 H10 H11]; intros;
-      cbn in *; constructor; cbn in *;
-      try solve [ intuition (try congruence; try lia) ];
-      try solve [ rewrite ?lstate_snoc; rewrite ?H8; cbn; (reflexivity || intuition congruence) ]
-  end.
+  intros [H1 H2 H3 H4 H5 H6 H7 H8 H9 H10 H11] Hpre;
+  constructor;
+  [ fld | fld | fld | fld | fld | fld | fld
+  | cbn; rewrite ?lstate_snoc; rewrite ?H8; unfold expect; cbn;
+    repeat match goal with E : _ = _ |- _ => rewrite E end; cbn;
+    first [ reflexivity | congruence | solve [ intuition congruence ] ]
+  | fld | fld | fld ].
 
-Ltac hs :=
-  intros ch; destruct ch; unfold cx0; cbv zeta;
-  dm; (split; [ try fin_cinv | split; [ cbn; try lia | cbn; intuition (try congruence) ] ]).
-
-Lemma cleanup_spec c e : hspec c 0 (fun _ => True) (chan_cleanup c e).
+Lemma cleanup_inv c e ch : cinv ch -> True -> cinv (x_ch (chan_cleanup c e (cx0 ch))).
 Proof.
-  unfold hspec, chan_cleanup, sess_lost, wake_read, wake_drains, upc, xk, xds, addlog.
-  Time hs.
+  unfold cx0, chan_cleanup, sess_lost, wake_read, wake_drains, upc, xk, xds, addlog.
+  Time dm.
+  Time all: fin_cinv.
 Qed.
